@@ -189,7 +189,9 @@ def main():
             kind = r[2].split(" ")[1]
             in_fragment = fl.get("pyden") if kind in ("py-error", "py-reenc-differs", "py-reenc-invalid-json", "py-reenc-rejected-by-source-schema") \
                 else (fl.get("pyden") and fl.get("goden"))
-            if in_fragment:
+            # the theorems speak of JSON equality up to null members; the stricter null-presence checks of
+            # the oracle are not instances of them
+            if in_fragment and not re.search(r"class=null-member-(added|only-in-\w+)", r[2]):
                 inside.append(r)
         kf = c.match_known(r[0] + "\t" + r[2])
         cls = fail_class(r[2])
